@@ -341,3 +341,92 @@ Theorem C11_translated_memory_commit_changed q rows :
   (GenEqPySim.writes_change rows q = true <-> ms_commit rows q <> rows).
 Proof. exact (GenEqPySim.writes_change_spec q rows). Qed.
 Print Assumptions C11_translated_memory_commit_changed.
+
+(* ------------------------------------------------------------------ translated source (translator unit "mem") *)
+(* coq/Gen/MemGen.v is regenerated on every run from the memory-port code of _FragmentCompiler.__call__
+   (/repo/amaranth/sim/_pyrtl.py: the text emitted for write ports and sync / comb read ports, by symbolic execution of
+   the generator) and from the port asserts of /repo/amaranth/hdl/_mem.py; Proofs/GenEqMem.v proves the regenerated
+   functions equal to wvals / queue_writes / sync_read / comb_update / granularity / wf_wport of the model.
+   to_gw / to_gr present the model's ports as the compiler sees them: (current value, len) per field. *)
+From V.Proofs Require GenEqMem.
+From V.Gen Require MemGen.
+
+Theorem C11_translated_granularity md wi p :
+  MemGen.WritePort_granularity (GenEqMem.to_gw md wi p) = granularity (md_width md) (wp_enw p).
+Proof. exact (GenEqMem.gen_granularity_eq md wi p). Qed.
+Print Assumptions C11_translated_granularity.
+
+(* the write-port loop of the process of domain d: the queue after it is queue_writes of the model (masked address,
+   data, replicated enable; ports of other domains skipped), write_vals holds the domain's ports *)
+Theorem C11_translated_sync_write_ports md rows wi d q : wf_md md = true ->
+  MemGen.sync_write_ports (md_shape md) (md_depth md) rows (Some d) (GenEqMem.gw_list md wi) q =
+  (queue_writes md rows q (dom_actions (all_wvals md wi) d), GenEqMem.wdict_of md wi d 0 (md_wports md) []).
+Proof. exact (GenEqMem.gen_sync_write_ports_eq md rows wi d q). Qed.
+Print Assumptions C11_translated_sync_write_ports.
+
+(* the body of the read-port loop of the same process: enable, masked address, transparency patches in the order of
+   transparent_for, normalisation to the shape; no KeyError when transparent_for names ports of the own domain *)
+Theorem C11_translated_sync_read_port md rows wi ri d p cur : GenEqMem.transp_ok md d (rp_transp p) ->
+  MemGen.sync_read_port (md_depth md) rows (Some d) (GenEqMem.wdict_of md wi d 0 (md_wports md) [])
+                        (GenEqMem.to_gr md ri p) cur =
+  Some (match rp_dom p with
+        | Some d' => if d' =? d then sync_read md rows (all_wvals md wi) p ri cur else cur
+        | None => cur
+        end).
+Proof. exact (GenEqMem.gen_sync_read_port_eq md rows wi ri d p cur). Qed.
+Print Assumptions C11_translated_sync_read_port.
+
+Theorem C11_translated_comb_read_port md rows ri p cur :
+  MemGen.comb_read_port (md_depth md) rows (GenEqMem.to_gr md ri p) cur =
+  match rp_dom p with
+  | None => norm (md_shape md) (ms_read (md_depth md) rows (mask (md_abits md) (ri_addr ri)))
+  | Some _ => cur
+  end.
+Proof. exact (GenEqMem.gen_comb_read_port_eq md rows ri p cur). Qed.
+Print Assumptions C11_translated_comb_read_port.
+
+(* both loops together are run_domain of the model; the comb loop is comb_update *)
+Theorem C11_translated_run_domain md rows wi ri q rdata d rst : wf_md md = true ->
+  Forall (fun p => GenEqMem.transp_ok md d (rp_transp p)) (md_rports md) ->
+  let '(q', wv) := MemGen.sync_write_ports (md_shape md) (md_depth md) rows (Some d) (GenEqMem.gw_list md wi) q in
+  (Some q', mapi (fun j p => MemGen.sync_read_port (md_depth md) rows (Some d) wv (GenEqMem.to_gr md (ri j) p)
+                                                   (nth j rdata 0)) (md_rports md)) =
+  (Some (fst (run_domain md rows (all_wvals md wi) ri (q, rdata) (d, rst))),
+   map Some (snd (run_domain md rows (all_wvals md wi) ri (q, rdata) (d, rst)))).
+Proof. exact (GenEqMem.gen_run_domain_eq md rows wi ri q rdata d rst). Qed.
+Print Assumptions C11_translated_run_domain.
+
+Theorem C11_translated_comb_update md rows ri rdata :
+  mapi (fun j p => MemGen.comb_read_port (md_depth md) rows (GenEqMem.to_gr md (ri j) p) (nth j rdata 0)) (md_rports md) =
+  comb_update md rows ri rdata.
+Proof. exact (GenEqMem.gen_comb_update_eq md rows ri rdata). Qed.
+Print Assumptions C11_translated_comb_update.
+
+(* the asserts of MemoryInstance.write_port / read_port and of the port classes *)
+Theorem C11_translated_write_port_check s depth dm a al dv dl e el :
+  MemGen.write_port_check s depth (MemGen.GWP dm (a, al) (dv, dl) (e, el)) = true <->
+  dl = width s /\ al = ceil_log2 depth.
+Proof. exact (GenEqMem.gen_write_port_check_eq s depth dm a al dv dl e el). Qed.
+Print Assumptions C11_translated_write_port_check.
+
+Theorem C11_translated_WritePort_init_check md wi p : 1 <= wp_enw p \/ (wp_enw p = 0 /\ md_width md = 0) ->
+  MemGen.WritePort_init_check (GenEqMem.to_gw md wi p) = wf_wport (md_shape md) p.
+Proof. exact (GenEqMem.gen_WritePort_init_check_eq md wi p). Qed.
+Print Assumptions C11_translated_WritePort_init_check.
+
+Theorem C11_translated_read_port_check md wi ri p d : rp_dom p = Some d ->
+  MemGen.read_port_check (md_shape md) (md_depth md) (GenEqMem.gw_list md wi) (GenEqMem.to_gr md ri p) = true ->
+  GenEqMem.transp_ok md d (rp_transp p).
+Proof. exact (GenEqMem.gen_read_port_check_eq md wi ri p d). Qed.
+Print Assumptions C11_translated_read_port_check.
+
+Theorem C11_translated_read_port_check_lengths s depth wps dm a al sh e el tr :
+  MemGen.read_port_check s depth wps (MemGen.GRP dm (a, al) sh (e, el) tr) = true ->
+  width sh = width s /\ al = ceil_log2 depth.
+Proof. exact (GenEqMem.gen_read_port_check_lengths s depth wps dm a al sh e el tr). Qed.
+Print Assumptions C11_translated_read_port_check_lengths.
+
+Theorem C11_translated_ReadPort_init_check dm a sh e el tr :
+  MemGen.ReadPort_init_check (MemGen.GRP dm a sh (e, el) tr) = true <-> el = 1 /\ (dm = None -> e = 1 /\ tr = []).
+Proof. exact (GenEqMem.gen_ReadPort_init_check_eq dm a sh e el tr). Qed.
+Print Assumptions C11_translated_ReadPort_init_check.
